@@ -117,4 +117,15 @@ theorem Lookup.fromFixed_full {B P : Nat} {probs : List Nat} {infer : Bool} {m :
   rw [h3, unwrap_wrapCdf hne hv.2.2.1]
   exact h4
 
+/-- what `UniformModel::new` returned, if it returned -/
+theorem Uniform.new_inv {B P range : Nat} {u : Uniform} (hP1 : 1 ≤ P) (hP : P ≤ B) (hPU : P ≤ U)
+    (hr : range < 2 ^ U) (h : Uniform.new B P range = .ok u) :
+    2 ≤ range ∧ range ≤ 2 ^ P ∧ u = { ppb := 2 ^ P / range, last := range - 1 } := by
+  by_cases hv : 2 ≤ range ∧ range ≤ 2 ^ P
+  · rw [Uniform.new_ok hP1 hP hPU hr hv.1 hv.2] at h
+    simp only [Except.ok.injEq] at h
+    exact ⟨hv.1, hv.2, h.symm⟩
+  · obtain ⟨site, hs⟩ := Uniform.new_panics hP1 hP hv
+    rw [hs] at h; simp at h
+
 end CV.Cat
